@@ -212,10 +212,16 @@ class Side:
         b = self.handle(name)
         if locked:
             with b.lock_write():
+                # the tip (and the history views) are read before the pull so
+                # that the handle's caches are warm when the tip moves
+                before = (b.last_revision_info(), b.revno(),
+                          self._history_views(b))
                 r = b.pull(self.src, stop_revision=self.rid(i),
                            overwrite=overwrite)
-                return ((r.old_revno, r.new_revno, r.old_revid, r.new_revid),
-                        b.last_revision_info(), b.revno())
+                return (before,
+                        (r.old_revno, r.new_revno, r.old_revid, r.new_revid),
+                        b.last_revision_info(), b.revno(), b.last_revision(),
+                        self._history_views(b))
         r = b.pull(self.src, stop_revision=self.rid(i), overwrite=overwrite)
         return (r.old_revno, r.new_revno, r.old_revid, r.new_revid)
 
@@ -239,8 +245,30 @@ class Side:
             return b.last_revision_info()
 
     def op_commit(self, name):
-        from breezy.branchbuilder import BranchBuilder
         b = self.handle(name)
+        r = self._commit(b)
+        return r if isinstance(r, str) else b.last_revision_info()
+
+    def op_commit_query(self, name):
+        """Under one write lock on a long-lived handle: ask the repository
+        for a revision id that does not exist yet, commit a revision with
+        exactly that id, ask again."""
+        b = self.handle(name)
+        repo = b.repository
+        rid = b"c%d" % (self.ncommit + 1)
+        with b.lock_write():
+            q0 = (repo.get_parent_map([rid]), repo.has_revision(rid),
+                  repo.get_graph().get_parent_map([rid, b"ghost-x"]))
+            r = self._commit(b)
+            if isinstance(r, str):
+                return r
+            q1 = (repo.get_parent_map([rid]), repo.has_revision(rid),
+                  repo.get_graph().get_parent_map([rid, b"ghost-x"]),
+                  b.last_revision_info())
+            return (q0, q1)
+
+    def _commit(self, b):
+        from breezy.branchbuilder import BranchBuilder
         self.ncommit += 1
         rid = b"c%d" % self.ncommit
         tip = b.last_revision()
@@ -439,7 +467,7 @@ class Side:
         return self.handle(name).tags.get_tag_dict()
 
 
-WRITES = {"create", "push", "pull", "pull-tag", "gen-history", "commit", "tag", "deltag", "tags-merge",
+WRITES = {"create", "push", "pull", "pull-tag", "gen-history", "commit", "commit-query", "tag", "deltag", "tags-merge",
           "cfg-set", "cfg-remove", "set-parent", "setrev", "pack",
           "leave-break"}
 
@@ -537,7 +565,7 @@ def run(case, env):
                 wrote = wrote or ra[0] != "EXC"
             elif wrote:
                 read_after_write = True
-            if op[0] in ("pull-tag", "gen-history") or \
+            if op[0] in ("pull-tag", "gen-history", "commit-query") or \
                     op[0] in WRITES and len(op) > 1 and op[-1] is True:
                 read_after_write = True    # write + read under one lock
     finally:
@@ -573,7 +601,8 @@ def gen_case(draw, tier):
              "setrev", "setrev",
              "pack", "leave-break", "info", "info", "parentmap",
              "get-revision", "gettext", "iter-inv", "get-rev-id", "dotted",
-             "all-ids", "tags", "history", "pull-tag", "gen-history"]))
+             "all-ids", "tags", "history", "pull-tag", "gen-history",
+             "commit-query", "commit-query", "pull"]))
         if kind == "create":
             if len(names) >= 3:
                 continue
@@ -593,7 +622,7 @@ def gen_case(draw, tier):
         elif kind == "parentmap":
             prog.append([kind, name, draw(st.sampled_from(
                 [False, False, False, True]))])
-        elif kind in ("commit", "pack", "leave-break", "info", "all-ids",
+        elif kind in ("commit", "commit-query", "pack", "leave-break", "info", "all-ids",
                       "tags", "history"):
             prog.append([kind, name])
         elif kind in ("pull-from", "fetch-from", "get-revision", "dotted"):
